@@ -221,6 +221,22 @@ def run(R: Run):
             continue
         R.corr(f"c10 snapscale {frac_s(x)} {frac_s(tol)}", lambda: frac_s(M.snap_scale(x, tol)), sig="snapscale")
 
+    # --- scale-band edges: target·(1 ± t) ± {t²/2, t·2^-10}, and the band edge of the inverse scale, both signs
+    for _ in range(R.pick(1500, 15000)):
+        t = rng.choice([2.0**-10, 2.0**-10, 2.0**-7, 2.0**-5, 2.0**-14])
+        kk = rng.choice([1, 1, 1, 2, 4, 8])
+        d, cls = c03.band_dev(rng, t, exact=True)
+        sgn = rng.choice([1, -1])
+        x = sgn * kk * (1 + d)
+        R.corr(f"c10 snapscale {frac_s(x)} {frac_s(t)}", lambda: frac_s(M.snap_scale(x, t)), sig="snapscale|band-" + cls)
+        tt = rng.choice([2.0**-4, 0.05, 0.25])
+        A_ = Affine(x, 0, kk * (rng.randint(-20, 20) + rng.choice([0, tt / 2, -tt * (1 - 2.0**-4)])), 0,
+                    rng.choice([x, -x, sgn * kk]), kk * rng.randint(-20, 20))
+        R.corr(f"c10 snap {aff_s(A_)} {frac_s(tt)} {frac_s(t)}", lambda: aff_s(M.snap_affine(A_, ttol=tt, stol=t)),
+               sig="snap|band-" + cls)
+        R.corr(f"c10 canpaste {aff_s(A_)} {frac_s(t)} {frac_s(tt)}", lambda: bool_s(O._can_paste(A_, stol=t, ttol=tt)[0]),
+               sig="canpaste|band-" + cls)
+
     # ================================================================ exact stream: _can_paste, snap_affine, is_affine_st
     def rnd_aff():
         kind = rng.choice(["st", "st", "st", "near", "near", "int", "frac", "rot", "tiny-rot", "mirror"])
@@ -335,10 +351,10 @@ def run(R: Run):
         else:
             sshape, dshape = (rng.randint(1, 30), rng.randint(1, 30)), (rng.randint(1, 30), rng.randint(1, 30))
         fam = rng.random()
-        if fam < 0.35:
+        if fam < 0.3:
             S = gen_src_affine(rng)
             Mx, kind = gen_M_exact(rng, sshape, dshape)
-        elif fam < 0.6:
+        elif fam < 0.5:
             S = Affine.identity() if rng.random() < 0.5 else gen_src_affine(rng)
             Mx, kind = gen_M_patched(rng, sshape, dshape)
         elif fam < 0.85:  # caller supplied tolerances, scales straddling k ± stol, shifts straddling ttol
@@ -364,6 +380,9 @@ def run(R: Run):
                 kind += "-far"
             Mx = Affine((k + dlt) * sg[0], 0, k * (ox + rt) + (k * dshape[1] if sg[0] < 0 else 0),
                         0, (k + dlt2) * sg[1], k * (oy + rt / 2) + (k * dshape[0] if sg[1] < 0 else 0))
+            if rng.random() < 0.6:  # scale class x placement class x read-shrink (up to 64) x top-of-band residues
+                sshape, dshape, Mx, stol_c, ttol_c, tg = c03.tol_case(rng)
+                kind = f"tol-{stol_c:g}|{tg}"
         else:  # arbitrary doubles: realistic resolution, residues on both sides of the tolerance
             resn = rng.choice(c03.RES_CHOICES)
             S = c03.float_src_affine(rng, resn)
@@ -634,11 +653,68 @@ def run(R: Run):
 
     for k, v in stats.items():
         R.count("plans|" + k, v)
+    R.searchers.append(searcher)
     R.exhaustive = False
     R.assumptions.append("GDAL (rasterio.warp.reproject, nearest, XSCALE=YSCALE=1) is the reference for Spec/Warp and for the "
                          "pasted image; coordinates within 1e-6 of a pixel edge are excluded (GDAL adds 1e-10 before floor)")
     R.assumptions.append("the paste operation itself (block copy, reversed on mirrored axes) is consumer code, modelled by "
                          "C10.pasted and executed by the harness with numpy")
+
+
+def searcher(R: Run, mismatches):
+    """After a broken proof / correspondence: around the scales and tolerances of the disagreeing snap_scale / snap_affine /
+    _can_paste lines, try the cross product placement class x read-shrink x residue and evaluate the paste contract
+    (shape(roi_src) == read_shrink * shape(roi_dst); pasted image == GDAL nearest warp) on the real code."""
+    O, M, GeoBox, wh_, rio_reproject = _import()
+    rng = R.rng
+    cands = []
+    for m in mismatches[:60]:
+        tk = m["line"].split(" ")
+        try:
+            if tk[1] == "snapscale":
+                cands.append((float(Fraction(tk[2])), float(Fraction(tk[2])), float(Fraction(tk[3])), 0.05))
+            elif tk[1] in ("snap", "canpaste"):
+                a = [float(Fraction(v)) for v in tk[2].split(";")]
+                stol, ttol = (float(Fraction(tk[4])), float(Fraction(tk[3]))) if tk[1] == "snap" else (float(Fraction(tk[3])), float(Fraction(tk[4])))
+                cands.append((a[0], a[4], stol, ttol))
+        except Exception:  # pylint: disable=broad-except
+            continue
+    for (sx, sy, stol, ttol) in cands[:25]:
+        k = max(1, round(min(abs(sx), abs(sy))))
+        for px_ in ("contained", "low", "high", "both", "disjoint"):
+            for py_ in ("contained", "high"):
+                for rt in (0, 0.9 * min(ttol, 0.49), -0.5 * min(ttol, 0.49)):
+                    Ls = (rng.randint(5, 14), rng.randint(5, 14))
+                    Nd = tuple((L + 3) if p_ == "both" else rng.randint(2, L) for L, p_ in zip(Ls, (py_, px_)))
+                    Ns = tuple(k * L - rng.randint(0, k - 1) for L in Ls)
+                    oy, ox = c03.place_axis(rng, py_, Ls[0], Nd[0]), c03.place_axis(rng, px_, Ls[1], Nd[1])
+                    Mx = Affine(sx, 0, k * (ox + rt) + (k * Nd[1] if sx < 0 else 0), 0, sy, k * oy + (k * Nd[0] if sy < 0 else 0))
+                    src_g, dst_g = GeoBox(wh_(Ns[1], Ns[0]), Affine.identity(), CRS0), GeoBox(wh_(Nd[1], Nd[0]), Mx, CRS0)
+                    case = {"fn": "compute_reproject_roi", "src_shape": Ns, "dst_shape": Nd, "src_affine": [1, 0, 0, 0, 1, 0],
+                            "dst_affine": list(Mx)[:6], "ttol": ttol, "stol": stol, "crs": CRS0, "dtype": "int16"}
+                    try:
+                        r = O.compute_reproject_roi(src_g, dst_g, ttol=ttol, stol=stol)
+                    except Exception as ex:  # pylint: disable=broad-except
+                        return {"key": "plan-raises", "case": case, "what": f"{type(ex).__name__}: {ex}"}
+                    if not r.paste_ok:
+                        continue
+                    rs = int(r.read_shrink)
+                    (ys, xs), (yd, xd) = r.roi_src, r.roi_dst
+                    if (ys.stop - ys.start, xs.stop - xs.start) != (rs * (yd.stop - yd.start), rs * (xd.stop - xd.start)):
+                        return {"key": "paste-src-shape-not-shrink-times-dst", "case": case,
+                                "what": f"paste_ok read_shrink={rs} roi_src={r.roi_src} roi_dst={r.roi_dst} ({px_}/{py_} placement)"}
+                    if rs == 1:
+                        src = make_src(rng, Ns, "int16")
+                        w = rio_reproject(src, np.full(Nd, -999, dtype="int16"), src_g, dst_g, "nearest", dst_nodata=-999)
+                        p_img = do_paste(src, Nd, r, r.transform.back.linear, -999)
+                        xx, yy = c03.centres(Nd)
+                        qx, qy = c03.apply_np(faff(Mx), xx, yy)
+                        edge = (np.abs(qx - np.round(qx)) < 1e-6) | (np.abs(qy - np.round(qy)) < 1e-6)
+                        drift, has_res = drift_of(faff(Mx), rs, Nd)
+                        if ((p_img != w) & ~edge).any() and not (has_res and drift >= Fraction(1, 2)):
+                            return {"key": "paste-differs-from-warp", "case": case,
+                                    "what": f"{int(((p_img != w) & ~edge).sum())} pixels differ; roi_src={r.roi_src} roi_dst={r.roi_dst}"}
+    return None
 
 
 def replay(R: Run, rec) -> int:
